@@ -7,6 +7,7 @@ import array
 import collections
 import functools
 import hashlib
+import os
 import pickle
 import sys
 import time
@@ -433,24 +434,29 @@ class DiskCache(_CacheBase):
             return self.lru_cache.get(key)
 
         file_path = self._get_file_path(key)
-        if file_path.exists():
+        try:
             with file_path.open("rb") as f:
                 value = (
                     cloudpickle.load(f) if self.use_cloudpickle else pickle.load(f)  # noqa: S301
                 )
-            if self.with_lru_cache:
-                self.lru_cache.put(key, value)
-            return value
-        return None
+        except FileNotFoundError:  # not cached, or evicted by another process in the meantime
+            return None
+        if self.with_lru_cache:
+            self.lru_cache.put(key, value)
+        return value
 
     def put(self, key: Hashable, value: Any) -> None:
         """Insert a key value pair into the cache."""
         file_path = self._get_file_path(key)
-        with file_path.open("wb") as f:
+        # Write to a process-specific temporary file and atomically replace the target,
+        # such that another process never reads a partially written file.
+        tmp_path = file_path.with_name(f"{file_path.name}.{os.getpid()}.tmp")
+        with tmp_path.open("wb") as f:
             if self.use_cloudpickle:
                 cloudpickle.dump(value, f)
             else:
                 pickle.dump(value, f)
+        tmp_path.replace(file_path)
         if self.with_lru_cache:
             self.lru_cache.put(key, value)
         self._evict_if_needed()
@@ -462,8 +468,8 @@ class DiskCache(_CacheBase):
         if self.max_size is not None:
             files = self._all_files()
             for _ in range(len(files) - self.max_size):
-                oldest_file = min(files, key=lambda f: f.stat().st_ctime_ns)
-                oldest_file.unlink()
+                oldest_file = min(files, key=_ctime_ns)
+                oldest_file.unlink(missing_ok=True)  # may be removed by another process
                 files.remove(oldest_file)
 
     def __contains__(self, key: Hashable) -> bool:
@@ -498,6 +504,13 @@ class DiskCache(_CacheBase):
     def shared(self) -> bool:
         """Return whether the cache is shared."""
         return self.lru_cache.shared if self.with_lru_cache else True
+
+
+def _ctime_ns(path: Path) -> int:
+    try:
+        return path.stat().st_ctime_ns
+    except FileNotFoundError:  # removed by another process: counts as oldest
+        return -1
 
 
 def _pickle_key(obj: Any) -> str:
